@@ -323,7 +323,9 @@ pub fn c02_run(t: Tier, s: Shard, st: &mut Stats) {
     run_cfgs(c02_configs(t), s, st)
 }
 pub fn c03_run(t: Tier, s: Shard, st: &mut Stats) {
-    run_cfgs(c03_configs(t), s, st)
+    run_cfgs(c03_configs(t), s, st);
+    // printed lines under a rate-limited standalone target
+    crate::c04s::run(t, s, st);
 }
 pub fn c04_run(t: Tier, s: Shard, st: &mut Stats) {
     run_cfgs(c04_configs(t), s, st);
